@@ -1292,11 +1292,11 @@ def run(chk):
         # the key must differ per combination: wrap
         chk.pmap(grid_case, cases, chunksize=4, label="g flag grid")
     if not only or "b" in only:
-        n = 36 if q else 400
+        n = 60 if q else 400
         chk.pmap(join_case, [{"seed": f"{chk.seed}/b/{i}", "builder": "runs"} for i in range(n)],
                  chunksize=2, label="b batch-boundary runs")
     if not only or "n" in only:
-        n = 150 if q else 2500
+        n = 200 if q else 2500
         chk.pmap(uns_case, [{"seed": f"{chk.seed}/n/{i}"} for i in range(n)], chunksize=8, label="n -s on unsorted input")
     if not only or "d" in only:
         dc = doc_cases()
